@@ -59,6 +59,43 @@ pub fn boundary_sweep(seed: &[u8], head: usize, tail: usize) -> impl Iterator<It
     })
 }
 
+/// Two integer fields within the first `head` bytes set to large values at once (each alone is
+/// what `boundary_sweep` does): length and count fields that are only validated against each
+/// other. Widths 2..=4, both byte orders, values "all ones" and "all ones but the sign bit".
+pub fn pair_sweep(seed: &[u8], head: usize) -> Vec<(String, Vec<u8>)> {
+    let n = seed.len().min(head);
+    let mut fields: Vec<(usize, usize, bool)> = Vec::new();
+    for off in 0..n {
+        for w in [2usize, 3, 4] {
+            if off + w <= seed.len() {
+                fields.push((off, w, false));
+                fields.push((off, w, true));
+            }
+        }
+    }
+    let big = |w: usize, k: usize| -> u64 {
+        let all = if w >= 8 { u64::MAX } else { (1u64 << (8 * w)) - 1 };
+        if k == 0 { all } else { all >> 1 }
+    };
+    let mut out = Vec::new();
+    for (i, &(o1, w1, be1)) in fields.iter().enumerate() {
+        for &(o2, w2, be2) in &fields[i + 1..] {
+            if o2 < o1 + w1 {
+                continue; // overlapping
+            }
+            for (k1, k2) in [(0usize, 0usize), (1, 0)] {
+                let mut b = seed.to_vec();
+                put(&mut b, o1, w1, big(w1, k1), be1);
+                put(&mut b, o2, w2, big(w2, k2), be2);
+                if b != seed {
+                    out.push((format!("pair off={o1} w={w1} {} + off={o2} w={w2} {} ({k1}{k2})", if be1 { "be" } else { "le" }, if be2 { "be" } else { "le" }), b));
+                }
+            }
+        }
+    }
+    out
+}
+
 /// every truncation length ≤ 64, then sampled
 pub fn truncations(seed: &[u8], r: &mut Rng, sampled: usize) -> Vec<(String, Vec<u8>)> {
     let mut v = Vec::new();
@@ -74,6 +111,30 @@ pub fn truncations(seed: &[u8], r: &mut Rng, sampled: usize) -> Vec<(String, Vec
     // drop the last 1..=32 bytes (footer-first formats)
     for d in 1..=32usize.min(seed.len()) {
         v.push((format!("drop last {d}"), seed[..seed.len() - d].to_vec()));
+    }
+    // what is left when the front is lost: the last 1..=96 bytes, sampled longer tails, and the
+    // tail from every line start (text formats: a response reduced to its trailer)
+    for k in 1..=96usize.min(seed.len()) {
+        v.push((format!("keep last {k}"), seed[seed.len() - k..].to_vec()));
+    }
+    for _ in 0..sampled / 2 {
+        if seed.len() > 97 {
+            let k = 97 + r.below((seed.len() - 97) as u64) as usize;
+            v.push((format!("keep last {k}"), seed[seed.len() - k..].to_vec()));
+        }
+    }
+    let mut lines = 0;
+    for (i, w) in seed.windows(1).enumerate().rev() {
+        if w[0] == b'\n' && i + 1 < seed.len() && lines < 48 {
+            lines += 1;
+            v.push((format!("tail from line start {}", i + 1), seed[i + 1..].to_vec()));
+            // ... without its line terminator
+            let t = &seed[i + 1..];
+            let t2 = t.strip_suffix(b"\r\n").or_else(|| t.strip_suffix(b"\n")).unwrap_or(t);
+            if t2.len() != t.len() {
+                v.push((format!("tail from line start {}, terminator dropped", i + 1), t2.to_vec()));
+            }
+        }
     }
     v
 }
@@ -346,7 +407,30 @@ pub fn shapes(target: &str, thorough: bool) -> Vec<(String, Vec<u8>)> {
             v.push(("shape: huge size".into(), b"b:{18446744073709551615M=z,*=n}".to_vec()));
             v.push(("shape: level overflow".into(), b"z:{999999999999,99999999999}".to_vec()));
         }
-        "mime" => {
+        "blte" | "encoding-blte" | "tvfs-blte" => {
+            // containers nested inside each other through single-chunk frames of mode F / N / Z
+            for d in [2usize, 16, 1000, 5000, if thorough { 200_000 } else { 40_000 }] {
+                for mode in [b'F', b'N', b'E'] {
+                    let mut b = Vec::with_capacity(d * 9 + 16);
+                    for _ in 0..d {
+                        b.extend_from_slice(b"BLTE\0\0\0\0");
+                        b.push(mode);
+                    }
+                    b.extend_from_slice(b"BLTE\0\0\0\0Npayload");
+                    v.push((format!("shape: {d} single-chunk containers nested through mode {}", mode as char), b));
+                }
+            }
+        }
+        "mime" | "mime-v1-module" => {
+            // the epilogue alone (the message in front of it lost or empty)
+            let empty_sha = "e3b0c44298fc1c149afbf4c8996fb92427ae41e4649b934ca495991b7852b855";
+            let empty_md5 = "d41d8cd98f00b204e9800998ecf8427e";
+            for digest in [empty_sha, empty_md5, &"0".repeat(64), &"f".repeat(32)] {
+                for end in ["", "\n", "\r\n"] {
+                    v.push((format!("shape: epilogue alone ({} digits, end {end:?})", digest.len()), format!("Checksum: {digest}{end}").into_bytes()));
+                    v.push((format!("shape: newline + epilogue ({} digits, end {end:?})", digest.len()), format!("\nChecksum: {digest}{end}").into_bytes()));
+                }
+            }
             // a multi-byte character straddling byte 512 of the lossy string
             for pad in 505..=515usize {
                 let mut s = "Content-Type: multipart/alternative; boundary=x\r\n".to_string();
